@@ -14,6 +14,8 @@ WORK = os.path.join(VERIF, ".work")
 SRC_DIRS = ["src", "include", "cli", "cmake"]
 TOP_FILES = ["CMakeLists.txt", "Doxyfile.in"]
 FLAVOURS = {
+    # no sanitizers: for the valgrind-memcheck pass of C20's thorough tier (uninitialised values, which ASan does not see)
+    "plain": "-O1 -g1 -DNDEBUG -DVATA_VERIF -fno-omit-frame-pointer -Wno-error",
     # what users run: NDEBUG as in the shipped configuration, sanitizers on, uninitialised locals poisoned
     "asan": "-O1 -g1 -DNDEBUG -DVATA_VERIF -fsanitize=address,undefined -fno-sanitize-recover=all "
             "-ftrivial-auto-var-init=pattern -fno-omit-frame-pointer -Wno-error",
@@ -83,8 +85,9 @@ def ensure_build(flavour="asan"):
                 fh.write("")
         log = res["log"]
         flags = FLAVOURS[flavour]
+        link = "-fsanitize=address,undefined" if "fsanitize" in flags else ""
         rc, out = run(["cmake", "-G", "Ninja", "-S", src, "-B", os.path.join(d, "b"), "-DCMAKE_BUILD_TYPE=None",
-                       f"-DCMAKE_CXX_FLAGS={flags}", "-DCMAKE_EXE_LINKER_FLAGS=-fsanitize=address,undefined"], log=log)
+                       f"-DCMAKE_CXX_FLAGS={flags}", f"-DCMAKE_EXE_LINKER_FLAGS={link}"], log=log)
         if rc != 0:
             raise RuntimeError("cmake configure failed:\n" + out[-3000:])
         rc, out = run(["ninja", "-C", os.path.join(d, "b"), "-j16", "libvata", "vata"], log=log)
